@@ -105,6 +105,8 @@ def align_tracer(prog, cls, spec):
         t = norm.canon(e, al)
         if ".is_active()" in t:
             return "%s:act" % label[0]
+        if isinstance(e, ast.Name) and _activity_flag(func.node, e.id):
+            return "%s:act" % label[0]
         return None
 
     is_cache = bool(cache_attrs)
@@ -137,6 +139,33 @@ def align_tracer(prog, cls, spec):
     ts.all_states = ("N", "I", "D") if is_cache else ("C", "D", "X")
     ts.is_cache = is_cache
     return ts
+
+
+def _activity_flag(funcnode, name):
+    """`name` is a boolean flag that is set to True only under an is_active() test (and otherwise only to False): testing it is
+    testing whether some cursor is still active  (`still_active = False; for m in ms: ... if m.is_active(): still_active = True`)"""
+    vals = norm.assigned_names(funcnode).get(name, [])
+    if not vals or not all(isinstance(v, ast.Constant) and isinstance(v.value, bool) for v in vals):
+        return False
+    if not any(v.value is True for v in vals):
+        return False
+    parents = {}
+    for p_ in ast.walk(funcnode):
+        for ch in ast.iter_child_nodes(p_):
+            parents[id(ch)] = p_
+    for st in ast.walk(funcnode):
+        if isinstance(st, ast.Assign) and any(isinstance(t, ast.Name) and t.id == name for t in st.targets) \
+                and isinstance(st.value, ast.Constant) and st.value.value is True:
+            x = st
+            ok = False
+            while id(x) in parents:
+                x = parents[id(x)]
+                if isinstance(x, ast.If) and ".is_active()" in norm.canon(x.test):
+                    ok = True
+                    break
+            if not ok:
+                return False
+    return True
 
 
 def _excused(ev, spec):
